@@ -65,31 +65,131 @@ Theorem C08_exactly_once_while_connected : forall cf tr1 tr2 l x p n,
 Proof. exact exactly_once_while_connected. Qed.
 Print Assumptions C08_exactly_once_while_connected.
 
-(* Termination reaches every publisher: on every schedule, a live clone that was attached
-   when the root handled Terminate - or ANY live clone once the root gate has been dropped -
-   gets Err(Terminated) from process() by the time it has drained its command queue. *)
+(* Termination reaches every publisher, late if need be. On every schedule: a live clone that
+   was attached when the root took Terminate off its queue - even if the root is still INSIDE
+   notify_clones(Terminate), waiting for room in some clone's full command queue (capacity
+   COMMAND_QUEUE_LEN = 16: back-pressure, not loss) - or ANY live clone once the root gate has
+   been dropped, gets Err(Terminated) from process(): [term_settle] = the clone the root waits
+   for takes a command off its queue and the root goes on (once per send still to do), then
+   clone c drains its command queue. *)
 Theorem C08_terminate_reaches_clones : forall cf tr c,
   let s := run cf tr in
   c_alive (clones s c) = true ->
-  (root_term s = true /\ c_att (clones s c) = true) \/ root_dropped s = true ->
-  c_term (clones (clone_drain cf (S (length (c_q (clones s c)))) s c) c) = true.
+  (term_started s = true /\ c_att (clones s c) = true) \/ root_dropped s = true ->
+  c_term (clones (term_settle cf s c) c) = true.
 Proof. exact terminate_reaches_clones. Qed.
 Print Assumptions C08_terminate_reaches_clones.
 
+(* Terminate is never lost, on every schedule: once the root has taken it off its queue, a live
+   attached clone has seen it, or has it in its command queue, or the root still has the send to
+   that clone on its list (it is waiting, inside notify_clones); after the root's process() has
+   returned Err(Terminated) only the first two remain. *)
+Theorem C08_terminate_never_lost : forall cf tr c,
+  let s := run cf tr in
+  c_alive (clones s c) = true -> c_att (clones s c) = true -> term_started s = true ->
+  c_term (clones s c) = true \/ In FTerm (c_q (clones s c)) \/
+  (root_term s = false /\ In (NSend c FTerm) (rnote s)).
+Proof. exact terminate_never_lost. Qed.
+Print Assumptions C08_terminate_never_lost.
+
+(* Why the schedule of C08_terminate_reaches_clones lets the clone the root waits for run: the
+   sends of notify_clones are sequential (head-of-line blocking). A schedule exists after which
+   the root has taken Terminate off its queue, clone 2 is live, attached and has drained its
+   command queue, and - whatever the root and clone 2 do from there - clone 2 does not get
+   Terminated, because clone 1 (16 commands pending, not running process()) is ahead of it.
+   Reproduced on the real code by corpus case `k;k;c 0;c 1;d 0;d 1;...;D 2;T;u 1;D 2;F 1;u 2;D 1`. *)
+Theorem C08_terminate_head_of_line :
+  exists cf tr, let s := run cf tr in
+    term_started s = true /\ c_alive (clones s 2) = true /\ c_att (clones s 2) = true /\ c_q (clones s 2) = [] /\
+    length (c_q (clones s 1)) = 16%nat /\
+    forall tr2, (forall a, In a tr2 -> a = ARoot \/ a = ACloneStep 2) ->
+      c_term (clones (run_from cf s tr2) 2) = false.
+Proof. exact terminate_head_of_line. Qed.
+Print Assumptions C08_terminate_head_of_line.
+
+(* A clone's command queue never holds more than COMMAND_QUEUE_LEN commands ... *)
+Theorem C08_clone_queue_bounded : forall cf tr c,
+  N.of_nat (length (c_q (clones (run cf tr) c))) <= cmd_queue_len.
+Proof. exact clone_queue_bounded. Qed.
+Print Assumptions C08_clone_queue_bounded.
+
+(* ... and the root's process() waits inside notify_clones only for a LIVE clone whose queue is
+   FULL (a dropped clone is skipped, a clone with room gets the command at once). *)
+Theorem C08_root_waits_only_for_full_queue : forall cf tr c x rest,
+  let s := run cf tr in
+  root_term s = false -> root_dropped s = false -> rnote s = NSend c x :: rest ->
+  step cf s ARoot = s ->
+  c_alive (clones s c) = true /\ N.of_nat (length (c_q (clones s c))) = cmd_queue_len.
+Proof. exact root_waits_only_for_full_queue. Qed.
+Print Assumptions C08_root_waits_only_for_full_queue.
+
+(* GateMetrics (shared by the root gate and its clones), on every schedule: num_updates is the
+   number of update_data calls that have returned, num_dropped_updates the number of those that
+   nobody took - no hand-over of that update to any link (queued to a live receiver /
+   direct_update called on a live target) is in the log. *)
+Theorem C08_gate_counters_count : forall cf tr,
+  m_upd (run cf tr) = n_published (run cf tr) /\ m_drop (run cf tr) = n_dropped (run cf tr).
+Proof. exact gate_counters_count. Qed.
+Print Assumptions C08_gate_counters_count.
+
+Theorem C08_gate_dropped_iff_nobody_took_it : forall cf tr p n sn b,
+  In (p, n, sn, b) (completed (run cf tr)) ->
+  (b = false <-> forall x l, ~ In (x, l, p, n) (delivered (run cf tr))).
+Proof. exact gate_dropped_iff_nobody_took_it. Qed.
+Print Assumptions C08_gate_dropped_iff_nobody_took_it.
+
+(* the same count read off the schedule: the [AEnd p] steps that are enabled *)
+Theorem C08_gate_num_updates_counts_trace : forall cf tr,
+  m_upd (run cf tr) = N.of_nat (finished_in cf init tr).
+Proof. exact gate_num_updates_counts_trace. Qed.
+Print Assumptions C08_gate_num_updates_counts_trace.
+
+Theorem C08_gate_counters_monotone : forall cf s a,
+  m_upd s <= m_upd (step cf s a) /\ m_drop s <= m_drop (step cf s a).
+Proof. exact gate_counters_monotone. Qed.
+Print Assumptions C08_gate_counters_monotone.
+
+Theorem C08_gate_dropped_le_published : forall cf tr, m_drop (run cf tr) <= m_upd (run cf tr).
+Proof. exact gate_dropped_le_published. Qed.
+Print Assumptions C08_gate_dropped_le_published.
+
 (* non-vacuity: two publishers, a queue link and a direct link, an update in flight
-   (blocked on the full queue) while the direct link re-subscribes *)
+   (blocked on the full queue) while the direct link re-subscribes; the direct link's target
+   is dropped and the next update, which nobody takes, is counted as dropped *)
 Example C08_example :
   let cf := MkCfg 1 false in
-  let tr := [AClone; ARoot; ASendSub 0; ARoot; ASendSub 1; ARoot;
+  let tr := [AClone; ARoot; ASendSub 0; ARoot; ARoot; ASendSub 1; ARoot; ARoot;
              ABegin 0; ADeliver 0; ADeliver 0; AEnd 0;
              ABegin 1; ADeliver 1;            (* blocked: queue of link 0 is full *)
-             ASendUnsub 1; ARoot; ASendSub 1; ARoot;
+             ASendUnsub 1; ARoot; ARoot; ASendSub 1; ARoot; ARoot;
              ARecv 0; ADeliver 1; ADeliver 1; AEnd 1;
              ARecv 0; ABegin 0; ADeliver 0; ADeliver 0; AEnd 0] in
   lseqs_of 1 0 (delivered (run cf tr)) = [1; 0] /\ lseqs_of 1 1 (delivered (run cf tr)) = [0] /\
   lseqs_of 0 0 (delivered (run cf tr)) = [1; 0] /\ length (completed (run cf tr)) = 3%nat /\
   upd (run cf tr) = [(0, 0); (2, 1)] /\
   link_active (run cf tr) 1 2 /\ pubs (run cf tr) 0 = PIdle 2 /\ pub_alive (run cf tr) 1 = true /\
-  (let s := run cf (tr ++ [ASendTerm; ARoot]) in
+  (m_upd (run cf tr), m_drop (run cf tr)) = (3, 0) /\
+  (let s := run cf (tr ++ [ASendUnsub 0; ARoot; ARoot; ARxDrop 2; ABegin 0; ADeliver 0; AEnd 0]) in
+   (m_upd s, m_drop s) = (4, 1)) /\
+  (let s := run cf (tr ++ [ASendTerm; ARoot; ARoot; ARoot]) in
    root_term s = true /\ c_alive (clones s 1) = true /\ c_att (clones s 1) = true /\ c_term (clones s 1) = false).
+Proof. vm_compute. repeat split; reflexivity. Qed.
+
+(* non-vacuity of Terminate under back-pressure: clone 1 does not run process() while a link
+   connects and disconnects 8 times (16 Follow* commands: its queue is full), clone 2 is
+   attached after it. Terminate: the root waits inside notify_clones for clone 1; nobody has
+   seen Terminated, clone 2 - behind clone 1 on the root's list - cannot get it by draining its
+   own queue; once clone 1 takes a command the sends go through and both clones get it. *)
+Example C08_example_full_queue :
+  let cf := MkCfg 2 false in
+  let churn := [ASendSub 1; ARoot; ARoot; ARoot; ASendUnsub 1; ARoot; ARoot; ARoot] in
+  let tr := [AClone; ARoot; AClone; ARoot] ++ churn ++ churn ++ churn ++ churn ++ churn ++ churn ++ churn ++ churn
+            ++ [ACloneStep 2; ACloneStep 2; ACloneStep 2; ACloneStep 2; ASendTerm; ARoot; ARoot; ARoot] in
+  let s := run cf tr in
+  length (c_q (clones s 1)) = 16%nat /\ length (c_q (clones s 2)) = 12%nat /\
+  term_started s = true /\ root_term s = false /\
+  rnote s = [NSend 1 FTerm; NSend 2 FTerm; NFinTerm] /\ step cf s ARoot = s /\
+  c_term (clones (clone_drain cf 20 s 2) 2) = false /\
+  c_term (clones (term_settle cf s 1) 1) = true /\ c_term (clones (term_settle cf s 2) 2) = true /\
+  root_term (term_settle cf s 2) = true.
 Proof. vm_compute. repeat split; reflexivity. Qed.
